@@ -133,7 +133,23 @@ class USMSecurityParameters:
     def from_snmp_type(seq: Sequence) -> "USMSecurityParameters":
         """
         Construct a USMSecurityParameters instance from an SNMP/X690 Sequence
+
+        :raises SnmpError: If the sequence does not have the structure
+            defined in :rfc:`3414#section-2.4`
         """
+        expected_types = (
+            OctetString,
+            Integer,
+            Integer,
+            OctetString,
+            OctetString,
+            OctetString,
+        )
+        if len(seq) != len(expected_types) or any(
+            not isinstance(item, expected)
+            for item, expected in zip(seq, expected_types)
+        ):
+            raise SnmpError("Malformed USM security parameters!")
         return USMSecurityParameters(
             authoritative_engine_id=seq[0].pythonize(),
             authoritative_engine_boots=seq[1].pythonize(),
